@@ -1317,6 +1317,11 @@ class C12CancelForce(Oracle):
     def __init__(self, world, plan, res):
         super().__init__(world, plan, res)
         self.pending: list[dict] = []
+        try:
+            self.watch_nodes = [n for n in model.parse(plan["method"]).walk() if n.kind == "Watch"] \
+                if plan.get("cfg", {}).get("wellformed") else []
+        except Exception:
+            self.watch_nodes = []
 
     def _digest(self):
         w = self.w
@@ -1385,5 +1390,30 @@ class C12CancelForce(Oracle):
                 elif age > 3:
                     self.pending.remove(p)
             else:
+                # force liveness: a forced Watch whose text is unique in the method enters its body within M_SLACK ticks
+                # in which the run was Running (unless its block ended, the run stopped or an error intervened)
+                if p["base"] == "Watch" and not p.get("done"):
+                    p["running_ticks"] = p.get("running_ticks", 0) + (1 if w.state == "Running" else 0)
+                    nodes = [n for n in self.watch_nodes if f"{n.kind}: {n.arg}".strip() == p["name"].strip()]
+                    if len(nodes) != 1 or in_repeating_scope(nodes[0]):
+                        p["done"] = True
+                    else:
+                        nid = nodes[0].id
+                        evs = [e for e in w.events if e[0] > p["tick"]]
+                        blocks = {a.arg for a in nodes[0].ancestors() if a.kind == "Block"}
+                        if any(e[1] == "block_end" and e[2] in blocks for e in w.events):
+                            p["done"] = True      # its block has ended (before or after the request): the Watch is gone
+                            continue
+                        if any(e[1] == "scope_activate" and e[2] == nid for e in evs):
+                            p["done"] = True
+                            self.res.probe("forced_watch_started")
+                        elif any(e[1] in ("stop", "method_error", "block_end", "scope_end") for e in evs) or \
+                                "edit" in w.ctx_flags or w.engine.has_error_state():
+                            p["done"] = True
+                        elif p["running_ticks"] >= 2 * M_SLACK:
+                            p["done"] = True
+                            self.v("C12", "C12.forced_watch_did_not_start", "Watch",
+                                   f"force of {p['name']!r} accepted after tick {p['tick']}; after {p['running_ticks']} Running "
+                                   f"ticks its body has not been entered")
                 if age > 3 * M_SLACK:
                     self.pending.remove(p)
